@@ -358,7 +358,7 @@ def run(ctx, driver):
     for i in range((60 if ctx.quick else 1500) * (5 if ctx.broken and ctx.quick else 1)):
         cfg = {"max_connections": 1, "callers": rng.randint(1, 2), "early_response": True, "auto_credit": False, "segment": "coarse",
                "init_max_streams": 10, "ups": [70000, 200000], "downs": [0, 10], "p_eof": 0.25, "p_fault": rng.choice([0.0, 0.15]),
-               "p_winsettings": 0.0, "p_ping": 0.0, "p_settings": 0.0, "max_steps": 60, "wall_limit": 3.0}
+               "p_winsettings": 0.0, "p_ping": 0.0, "p_settings": 0.0, "max_steps": 60, "wall_limit": 6.0}
         seed = rng.randrange(1 << 30)
         rt = ("asyncio", "trio")[i % 2]
         ex = h2x.run_one(rt, cfg, seed)
@@ -372,8 +372,10 @@ def run(ctx, driver):
         hung = [c.idx for c in ex.callers if c.state != "done"] or [c.idx for c in getattr(ex, "stuck", [])]
         # "inconclusive" (the schedule ran out of real time) with no network operation outstanding means the client kept running
         # without ever waiting for the network: it spins
-        parked = [p for p in ex.net.pending if not p.done]
-        spinning = getattr(ex, "wall_limited", False) and not parked
+        # (judged at the moment the budget ran out, and only if the drain had hardly advanced: a slow machine makes a schedule
+        # long, it does not make a client run for seconds between two network operations)
+        spinning = getattr(ex, "wall_limited", False) and not getattr(ex, "parked_at_wall_limit", ["?"]) and \
+            getattr(ex, "drain_steps_at_wall_limit", 10 ** 9) < 200
         if (hung and ((ended and not getattr(ex, "inconclusive", False)) or spinning)) or getattr(ex, "livelock", False):
             rec.fail("call-never-returns", {"proto": "h2", "when": "upload-stalled-after-early-response"},
                      {"runtime": rt, "cfg": cfg, "seed": seed, "callers": hung, "livelock": bool(getattr(ex, "livelock", False)), "spinning": bool(spinning),
